@@ -16,7 +16,7 @@ from sim.terms import EX, XSD, T, key, u
 
 ID = "C15"
 LEVEL = "exploration"
-TIERS = {"quick": {"runs": 2400, "wall_cap": 600}, "thorough": {"runs": 50000, "wall_cap": 3300}}
+TIERS = {"quick": {"runs": 4000, "wall_cap": 600}, "thorough": {"runs": 50000, "wall_cap": 3300}}
 RULE = (
     "each evaluation is one seeded data graph (<=12 triples, falsy and numeric literals, a blank node) held in 5 store configurations, 1-3 "
     "generated queries (BGP, OPTIONAL(+FILTER), UNION, MINUS, FILTER incl. [NOT] EXISTS, BIND, VALUES incl. group-leading, sub-SELECT incl. local variables that reuse outer names, groups with their own FILTER/MINUS, GROUP BY/aggregates, DISTINCT, ORDER BY+LIMIT "
